@@ -551,6 +551,9 @@ fn run(tier: Tier, shard: usize, n: usize) -> Report {
 	if tier == Tier::Quick {
 		x.ks = vec![600];
 		x.sels = vec![Sel::None, Sel::FirstOfChunk0, Sel::LastOfChunk0, Sel::FirstOfChunk1];
+	} else {
+		x.ks = vec![600, 1025];
+		x.sels = vec![Sel::None, Sel::FirstOfChunk0, Sel::LastOfChunk0, Sel::FirstOfChunk1, Sel::AllOfLastPartialChunk];
 	}
 	let mut ops = vec![];
 	dfs(&mut x, &root, &hist, &mut ops, &mut rep, (0, n));
